@@ -129,6 +129,39 @@ def run(repo):
                                  '%s drops the first two characters of `%s` without having tested that they are '
                                  'the `+ ` of a positive leading term: a negative leading coefficient loses its '
                                  'minus sign in the written file' % (wf.fq, ntext(x.value)[:40]), repo.where(wf, x), P))
+    # (i) the Subject To section has one line per row of the program, unconditionally: a row without coefficients is
+    #     still the constraint 0 <= b_i, which is infeasible for b_i < 0
+    rloops = []
+    for n in walk_no_nested(fi.node):
+        if isinstance(n, ast.For) and 'shape[0]' in ntext(n.iter) and 'linear' in ntext(n.iter):
+            rloops.append(n)
+    if len(rloops) != 1:
+        raise AnalysisError('lp_export: the loop over the rows of self.linear was not found')
+    rl = rloops[0]
+    def own_jumps(stmts):
+        """continue / break statements that leave *this* loop's iteration (not those of loops nested in it)"""
+        out = []
+        for st_ in stmts:
+            if isinstance(st_, (ast.Continue, ast.Break)):
+                out.append(st_)
+            elif isinstance(st_, (ast.For, ast.While, ast.FunctionDef, ast.AsyncFunctionDef, ast.ClassDef)):
+                continue
+            else:
+                for fld in ('body', 'orelse', 'finalbody'):
+                    sub = getattr(st_, fld, None)
+                    if isinstance(sub, list):
+                        out += own_jumps(sub)
+                for h_ in getattr(st_, 'handlers', []):
+                    out += own_jumps(h_.body)
+        return out
+    skips = own_jumps(rl.body)
+    ok = not skips
+    res.inst({'lp_export': 'Subject To section', 'one_line_per_row': ok}, ok)
+    if not ok:
+        res.fail(Finding(RULE, fi.fq, 'constraint rows skipped',
+                         'lp_export leaves the loop over the rows early (`%s`) for some rows: a skipped row is missing from '
+                         'the file -- also a row without coefficients, which is the constraint 0 <= b_i and makes the '
+                         'program infeasible when b_i < 0' % type(skips[0]).__name__.lower(), repo.where(fi, rl), P))
     # (e) the Bounds section has one line per column, unconditionally
     bloops = []
     for n in walk_no_nested(fi.node):
